@@ -125,6 +125,8 @@ func runSched(c *ctx, plan []famCount, race bool) *schedAgg {
 		switch fc.Family {
 		case "wide":
 			per = 12
+		case "fanin":
+			per = 2
 		case "drain":
 			per = 100
 		}
